@@ -488,20 +488,6 @@ func (c *RemoteClient) SaveTxs(ctx context.Context, txs expanded_tx.AncestorTxs)
 
 	messageTimeout := c.MessageTimeout()
 
-	// Create request
-	requestID := rand.Uint64()
-	responseChannel := make(chan *Message, 1) // use buffer of 1 to prevent lock on write
-	request := &request{
-		typ:      MessageTypeSaveTxs,
-		id:       requestID,
-		response: responseChannel,
-	}
-
-	// Add to requests so when the response is seen it can be matched up.
-	if err := c.addRequest(request, messageTimeout); err != nil {
-		return err
-	}
-
 	hasher := sha256.New()
 	txids := make([]fmt.Stringer, len(txs))
 	for i, tx := range txs {
@@ -514,7 +500,21 @@ func (c *RemoteClient) SaveTxs(ctx context.Context, txs expanded_tx.AncestorTxs)
 		txids[i] = txid
 	}
 	requestHash, _ := bitcoin.NewHash32(hasher.Sum(nil))
-	request.hash = *requestHash
+
+	// Create request
+	requestID := rand.Uint64()
+	responseChannel := make(chan *Message, 1) // use buffer of 1 to prevent lock on write
+	request := &request{
+		typ:      MessageTypeSaveTxs,
+		hash:     *requestHash,
+		id:       requestID,
+		response: responseChannel,
+	}
+
+	// Add to requests so when the response is seen it can be matched up.
+	if err := c.addRequest(request, messageTimeout); err != nil {
+		return err
+	}
 
 	logger.InfoWithFields(ctx, []logger.Field{
 		logger.Uint64("request_id", requestID),
